@@ -227,11 +227,12 @@ def c08(ctx):
         lab = _label(cfg)
         ctx.add(out, lab, M.rule_C1, ctx, prog, lab, only=MOVERS, rule='C1-movers')
         ctx.add(out, lab, M.rule_MV1, ctx, prog, lab)
+        ctx.add(out, lab, M.rule_S1, ctx, prog, lab)
         ctx.add(out, lab, M.rule_C4, ctx, prog, lab)
         ctx.add(out, lab, CR.rule_A2, ctx, prog, lab)
         ctx.add(out, lab, CT.rule_F2, ctx, prog, lab)
         ctx.add(out, lab, CR.rule_A1, ctx, prog, lab)
-    _selftest(ctx, out, ['MV1'])
+    _selftest(ctx, out, ['MV1', 'S1'])
     return out
 
 
@@ -307,6 +308,7 @@ def c01(ctx):
         ctx.add(out, lab, IV.rule_F9, ctx, prog, lab)
         ctx.add(out, lab, P.rule_C6d, ctx, prog, lab)
         ctx.add(out, lab, P.rule_C6e, ctx, prog, lab)
+        ctx.add(out, lab, P.rule_C6f, ctx, prog, lab)
         ctx.add(out, lab, M.rule_C3c, ctx, prog, lab)
     return out
 
@@ -319,7 +321,7 @@ def c01(ctx):
                    'mzd_make_table); E1 on the echelonisation functions.'),
       not_decided='rank, RREF uniqueness, pivot search, density switch (value level)')
 def c02(ctx):
-    from . import pivot as PV
+    from . import pivot as PV, blockmove as BM2, coords as COk2
     from . import families as B, align as AL, masks as M, resources as R
     out = []
     for cfg in _configs(ctx, extra=[dict(frontend.host_config(), sse2=0)]):
@@ -328,6 +330,9 @@ def c02(ctx):
         ctx.add(out, lab, B.rule_B1, ctx, prog, lab, only_funcs=ECH_FUNCS)
         ctx.add(out, lab, B.rule_B2, ctx, prog, lab, only_funcs=ECH_FUNCS | {'_mzd_combine'}, rule='B2-ech') if False else B.rule_B2(ctx, prog, lab)
         ctx.add(out, lab, B.rule_B5, ctx, prog, lab)
+        ctx.add(out, lab, B.rule_B2r, ctx, prog, lab)
+        ctx.add(out, lab, BM2.rule_CL1, ctx, prog, lab)
+        ctx.add(out, lab, COk2.rule_W2k, ctx, prog, lab)
         ctx.add(out, lab, AL.rule_D1, ctx, prog, lab, only_funcs=ECH_FUNCS)
         ctx.add(out, lab, M.rule_C2_callers, ctx, prog, lab)
         ctx.add(out, lab, R.rule_E1, ctx, prog, lab, only_funcs=ECH_FUNCS | {'mzd_echelonize_m4ri', 'mzd_echelonize_pluq', 'mzd_echelonize', 'mzd_top_echelonize_m4ri'}, rule='E1-ech')
@@ -401,7 +406,7 @@ def c04(ctx):
                    'readers/writer (nothing leaks, nothing is freed twice); E3-3p (fopen/png_create_* results tested before use).'),
       not_decided='round-trip equality, libpng behaviour on corrupted streams (it aborts through png_error: allowed by the property)')
 def c18(ctx):
-    from . import io_rules as I, families as B, resources as R, nullcheck as NC
+    from . import io_rules as I, families as B, resources as R, nullcheck as NC, masks as Mk
     out = []
     for cfg in _configs(ctx):
         prog = _prog(ctx, cfg)
@@ -410,6 +415,7 @@ def c18(ctx):
         ctx.add(out, lab, I.rule_I2, ctx, prog, lab)
         ctx.add(out, lab, I.rule_I3, ctx, prog, lab)
         ctx.add(out, lab, I.rule_I4, ctx, prog, lab)
+        ctx.add(out, lab, Mk.rule_W1, ctx, prog, lab)
         ctx.add(out, lab, B.rule_B1, ctx, prog, lab, only_funcs=IO_FUNCS)
         ctx.add(out, lab, R.rule_E1, ctx, prog, lab, only_funcs=IO_FUNCS, rule='E1-io')
         ctx.add(out, lab, NC.rule_E3_third_party, ctx, prog, lab)
@@ -561,7 +567,7 @@ INV_FUNCS = {'mzd_inv_m4ri', 'mzd_invert_naive', 'mzd_trtri_upper', 'mzd_trtri_u
                    'elimination (0 or 1..10) by interval analysis.'),
       not_decided='A*B = B*A = I, equality of the naive and the Four-Russians result, that the triangular inverse is the inverse (value level)')
 def c05(ctx):
-    from . import masks as M
+    from . import masks as M, coords as COk
     from . import inverse as RI, const_rules as CR, families as B, contracts as CT, resources as R
     out = []
     for cfg in _configs(ctx):
@@ -570,6 +576,8 @@ def c05(ctx):
         ctx.add(out, lab, CR.rule_A1x, ctx, prog, lab, [('mzd_inv_m4ri', 1), ('mzd_invert_naive', 1), ('mzd_invert_naive', 2)])
         ctx.add(out, lab, RI.rule_R1, ctx, prog, lab)
         ctx.add(out, lab, RI.rule_R2, ctx, prog, lab)
+        ctx.add(out, lab, COk.rule_W2k, ctx, prog, lab)
+        ctx.add(out, lab, M.rule_S1, ctx, prog, lab)
         ctx.add(out, lab, B.rule_B8, ctx, prog, lab)
         ctx.add(out, lab, B.rule_B1, ctx, prog, lab, only_funcs=INV_FUNCS)
         ctx.add(out, lab, B.rule_B2, ctx, prog, lab, only_funcs=INV_FUNCS, rule='B2-inv')
@@ -590,7 +598,7 @@ SOLVE_FUNCS = {'mzd_solve_left', '_mzd_solve_left', 'mzd_pluq_solve_left', '_mzd
                    'consistency update Y2 += H*Y1, the back solve and the permutation applications); E1 on the solve functions.'),
       not_decided='that the verdict equals the rank test and that A*X = B (value level)')
 def c06(ctx):
-    from . import blockmove as BM, pivot as PV
+    from . import blockmove as BM, pivot as PV, masks as Mk6, purity as Pu6
     from . import contracts as CT, resources as R
     out = []
     for cfg in _configs(ctx):
@@ -605,6 +613,8 @@ def c06(ctx):
         ctx.add(out, lab, CT.rule_F4, ctx, prog, lab)
         ctx.add(out, lab, BM.rule_CL1, ctx, prog, lab)
         ctx.add(out, lab, CT.rule_F11, ctx, prog, lab)
+        ctx.add(out, lab, Mk6.rule_C3, ctx, prog, lab)
+        ctx.add(out, lab, Pu6.rule_C6f, ctx, prog, lab)
         ctx.add(out, lab, PV.rule_FP1, ctx, prog, lab)
     return out
 
